@@ -132,6 +132,10 @@ func Web(r *rand.Rand) *WebURL {
 			if r.IntN(4) == 0 {
 				p.Name = Pick(r, []string{"a", "b", "c"})
 			}
+			if r.IntN(24) == 0 {
+				// the empty name is also "made of unreserved characters": "?a&=&b", "?=x"
+				p.Name, p.HasEq = "", true
+			}
 			w.Query = append(w.Query, p)
 		}
 	}
